@@ -380,6 +380,27 @@ def o_emitted_valid_at_peer(h):
         sa = next((x for x in cands if bytes(x.my_spi) == spi and x.peer_crypto is not None and int(x.state) != 21), None)
         if sa is None:
             continue
+        # judge only a pair of IKE_SAs that negotiated from the same two IKE_SA_INIT messages: a duplicated IKE_SA_INIT request makes the
+        # responder create a second IKE_SA, and a duplicated INVALID_KE_PAYLOAD answer makes the initiator retry twice with different key
+        # pairs — the initiator then talks to a responder object that answered its *other* retry; the two never had keys in common
+        # (both ends keep the octets they authenticate; successors of a rekey keep none)
+        me_ep = w.A if d.sender == 'A' else w.B
+        own_spi = data[0:8] if sender_is_initiator else data[8:16]
+        mine = []
+        for x in me_ep.sas():
+            mine.append(x)
+            if getattr(x, 'new_ike_sa', None) is not None:
+                mine.append(x.new_ike_sa)
+        snd = next((x for x in mine if bytes(x.my_spi) == own_spi), None)
+        if snd is None:
+            continue
+        same = True
+        for f in ('ike_sa_init_req_data', 'ike_sa_init_res_data'):
+            u, v = getattr(snd, f, None), getattr(sa, f, None)
+            if (u is None) != (v is None) or (u is not None and bytes(u) != bytes(v)):
+                same = False
+        if not same:
+            continue
         # the checksum, recomputed with nothing of the implementation but the negotiated algorithm and key: HMAC over everything before it
         try:
             import hmac as _hmac
